@@ -79,7 +79,7 @@ def run(env, w):
     hopeless = []
     for i in range(n):
         fast = params[i]["strats"][0][0]
-        for (rt, _) in params[i]["strats"][1:]:
+        for (rt, *_) in params[i]["strats"][1:]:
             fast = pysym.site(rt < fast, rt, fast)
         hopeless.append(params[i]["dl_us"] < now + fast)
     if pls is None:
